@@ -122,9 +122,9 @@ func (r *run) monitor(events []string, st *scheduler.VerifState, dump string) {
 				if tl := prevTask[strconv.Itoa(op)]; tl != nil && tl["st"] == "3" && tl["w"] != "-" {
 					wk := tl["q"] + "/" + tl["w"]
 					if r.syncActive[wk] {
-						r.failf("violation", "C06", "C06.worker_timeout", "task of operation %d failed with UNAVAILABLE although its worker %s was inside a Synchronize call when the segment began", op, wk)
+						r.failf("violation", timeoutProp(), "C06.worker_timeout / C02.faithful", "task of operation %d failed with UNAVAILABLE although its worker %s was inside a Synchronize call when the segment began", op, wk)
 					} else if last, ok := r.syncRet[wk]; ok && r.w.clk.now < last+r.w.cfg.workerTimeout {
-						r.failf("violation", "C06", "C06.worker_timeout", "task of operation %d failed with UNAVAILABLE at %d although its worker %s last synchronized at %d (worker timeout %d)", op, r.w.clk.now, wk, last, r.w.cfg.workerTimeout)
+						r.failf("violation", timeoutProp(), "C06.worker_timeout / C02.faithful", "task of operation %d failed with UNAVAILABLE at %d although its worker %s last synchronized at %d (worker timeout %d)", op, r.w.clk.now, wk, last, r.w.cfg.workerTimeout)
 					}
 				}
 			}
@@ -217,4 +217,17 @@ func (r *run) monitor(events []string, st *scheduler.VerifState, dump string) {
 	}
 	// C07a: a task holds a learner iff it is not completed (also part of the hook invariants)
 	_ = fmt.Sprintf
+}
+
+// currentProp is the property this run of the shared harness was started for.
+var currentProp string
+
+// A task failed with "worker disappeared" although the worker did synchronize in time:
+// that breaks C06 (timeouts happen at their deadline, not earlier) and C02 (the error a
+// client receives names a cause that did not occur).
+func timeoutProp() string {
+	if currentProp == "C02" {
+		return "C02"
+	}
+	return "C06"
 }
